@@ -46,8 +46,8 @@ def angle(rng, cls=None, big=1e6):
     elif c == "nearpi_out":
         a = rng.choice([-1.0, 1.0]) * (PI + 10.0 ** rng.uniform(-15, -1))
     elif c == "exact":
-        a = float(rng.choice([0.0, PI, -PI, PI / 2, -PI / 2, math.nextafter(PI, 0.0), math.nextafter(-PI, 0.0),
-                              math.nextafter(PI, 10.0), math.nextafter(-PI, -10.0)]))
+        a = float(rng.choice([0.0, 0.0, 0.0, -0.0, PI, -PI, PI / 2, -PI / 2, math.nextafter(PI, 0.0), math.nextafter(-PI, 0.0),
+                              math.nextafter(PI, 10.0), math.nextafter(-PI, -10.0), R.TWO_PI, -R.TWO_PI]))
     elif c == "shifted":
         a = rng.normal() * 1.5 + R.TWO_PI * int(rng.integers(-1000, 1000))
     elif c == "huge":
@@ -571,6 +571,9 @@ def cluster_graph(rng, kinds=None, size=(2, 6), noise_t=0.05, noise_r=0.03, init
             v["fixed"] = int(bool(v["fixed"]))
         labels.add("fixed_flags_as_int")
     spec = {"vertices": vertices, "edges": edges, "truth_by_id": {str(k): v for k, v in truth.items()}}
+    if rng.random() < 0.12:
+        spec["np_ids"] = True
+        labels.add("ids_as_numpy_int64")
     if share:
         spec["share"] = share
         spec["share_mode"] = str(rng.choice(["object", "array"]))
